@@ -399,6 +399,10 @@ class Cluster:
         tmp = len(available_resources)
         if size > tmp > 0:
             size = tmp
+        if size < 1 or tmp == 0:
+            # nothing to reserve: do not count a reservation that holds no
+            # machine (it could never be released again)
+            return False
         for m in range(0, size):
             self._add_idle_resource(name, available_resources[m])
 
